@@ -338,7 +338,13 @@ pub fn build(spec: &PathSpec) -> Built {
     for lvl in 0..=spec.depth {
         let mut f = Function::default();
         for j in 0..spec.prefix[lvl] {
-            f.cards.push(Card::set_var(format!("p{lvl}_{j}"), Card::string_card(format!("prefix {lvl} {j}"))));
+            // cards in front of the interesting one: some produce code, some (comments, empty
+            // composites) produce none
+            f.cards.push(match (lvl + j as usize + (spec.nested >> 8) as usize) % 3 {
+                0 => Card::set_var(format!("p{lvl}_{j}"), Card::string_card(format!("prefix {lvl} {j}"))),
+                1 => c(CardBody::Comment(format!("comment {lvl} {j}"))),
+                _ => Card::composite_card("empty", vec![c(CardBody::Comment("inside".into()))]),
+            });
         }
         if lvl == spec.depth {
             if needs_mark {
